@@ -4,6 +4,7 @@ package main
 // injected with `go test -overlay` (nothing is written to /repo), run against the current working tree.
 
 import (
+	"sort"
 	"encoding/json"
 	"fmt"
 	"os"
@@ -28,9 +29,17 @@ type replayMeta struct {
 }
 
 func findReplayTemplate(obligation string) *replayMeta {
+	if all := findReplayTemplates(obligation); len(all) > 0 {
+		return all[0]
+	}
+	return nil
+}
+
+// findReplayTemplates: every replay scenario that names the obligation (exact matches first, then prefix matches).
+func findReplayTemplates(obligation string) []*replayMeta {
 	metas, _ := filepath.Glob(filepath.Join(verifRoot(), "replays_src", "*", "*", "meta.json"))
-	var fallback *replayMeta
-	defer func() {}()
+	sort.Strings(metas)
+	var exact, byPrefix []*replayMeta
 	for _, m := range metas {
 		data, err := os.ReadFile(m)
 		if err != nil {
@@ -40,6 +49,7 @@ func findReplayTemplate(obligation string) *replayMeta {
 		if json.Unmarshal(data, &rm) != nil {
 			continue
 		}
+		rm.dir = filepath.Dir(m)
 		match := rm.Obligation == obligation
 		for _, a := range rm.Also {
 			if a == obligation {
@@ -47,18 +57,19 @@ func findReplayTemplate(obligation string) *replayMeta {
 			}
 		}
 		if match {
-			rm.dir = filepath.Dir(m)
-			return &rm
+			c := rm
+			exact = append(exact, &c)
+			continue
 		}
 		for _, pf := range rm.Prefixes {
-			if strings.HasPrefix(obligation, pf) && fallback == nil {
+			if strings.HasPrefix(obligation, pf) {
 				c := rm
-				c.dir = filepath.Dir(m)
-				fallback = &c
+				byPrefix = append(byPrefix, &c)
+				break
 			}
 		}
 	}
-	return fallback
+	return append(exact, byPrefix...)
 }
 
 type overlayEdit struct {
